@@ -102,6 +102,21 @@ func (t *tunDev) inject(p []byte) error {
 	return err
 }
 
+// take returns (and forgets) everything read from the device so far
+func (t *tunDev) take() [][]byte {
+	t.mu.Lock()
+	defer t.mu.Unlock()
+	f := t.frames
+	t.frames = nil
+	return f
+}
+
+func (t *tunDev) count() int {
+	t.mu.Lock()
+	defer t.mu.Unlock()
+	return len(t.frames)
+}
+
 func (t *tunDev) close() {
 	close(t.stop)
 	<-t.done
